@@ -91,6 +91,10 @@ class KBase:
     def tag(self):
         return 1
 
+    @classmethod
+    def ctag(cls):
+        return 10
+
 
 class K(KBase):
     """A second function named `f` in this file (a method): a method tracepoint names a function NAME."""
@@ -100,8 +104,14 @@ class K(KBase):
         t = super().tag()  # TP:ktag
         return t + 1
 
+    @classmethod
+    def ctag(cls):
+        # zero-argument super() in a frame that has no `self`: the __class__ cell is all it has
+        c = super().ctag()  # TP:kctag
+        return c + 1
+
     def f(self, s):
-        x = self.tag() - 2  # TP:kf_first
+        x = self.tag() - 2 + self.ctag() - 11  # TP:kf_first
         for op in s:
             if op[0] == 'call':
                 x += _target(op[1])(op[2])
